@@ -121,7 +121,7 @@ class Check(PropertyCheck):
             "eager/lazy, connect ok/fail, EOF) x segmentation (every segmentation for streams <= 9 bytes, every single "
             "split point, 1-byte mode, random cuts) x completion schedule. distinct = distinct case dict; non-trivial = stream non-empty.")
     budget = {"quick": 6000, "thorough": 400000}
-    time_budget = {"quick": 12, "thorough": 540}
+    time_budget = {"quick": 12, "thorough": 200}
     fingerprints = ["mitmproxy.proxy.layers.modes:Socks5Proxy", "mitmproxy.proxy.layers.modes:DestinationKnown",
                     "mitmproxy.proxy.layer:Layer.handle_event", "mitmproxy.proxy.layer:NextLayer._handle_event"]
     trusted_base = ["harness/common/world.py as a stand-in for proxy/server.py's command interpreter",
@@ -662,7 +662,7 @@ class Check(PropertyCheck):
     # size / threshold classes: how much application data sits behind the request, how large the whole stream is and
     # how large the segment is that completes the handshake (a limit on any of these is a segmentation dependence)
     THRESHOLDS = [(30, [255, 256, 257, 511, 512, 513]), (40, [1023, 1024, 1025, 1031, 1032, 1033, 1034, 1500, 2048]),
-                  (20, [4095, 4096, 4097, 8192]), (6, [16384, 32768]), (2, [65535, 65536, 65537])]
+                  (20, [4095, 4096, 4097, 8192]), (3, [16384, 32768]), (1.5, [65535, 65536, 65537])]
 
     def gen_sizes(self, rng, tier):
         while True:
